@@ -425,6 +425,32 @@ func run(e *core.Env) {
 				_ = X.Router.DisconnectPing.Send(tp.Chance(1, 2), []netip.Addr{Z.IP})
 				break
 			}
+			if lzx := Z.Peering.GetLink(X.IP); lzx != nil && tp.Chance(1, 3) {
+				// A disconnect notice of a router that is not the peer it arrives from: Z tells
+				// its neighbours (hop ping) that it goes down or has lost routers; X handles it
+				// and passes it on to V. What V may remove are routes that contain Z - not its
+				// link to X, nor anything else that merely came the same way.
+				dmsg, _ := cbor.Marshal(&router.DisconnectPingMsg{GoingDown: tp.Chance(2, 3), Disconnected: []netip.Addr{ghost.IP}})
+				body := mesh.PingBody(Z, "disconnect", uint64(tp.Uint32())+1, 0, false, dmsg)
+				if df, err := Z.Inst.Builder.NewFrameV1(Z.IP, m.RouterAddress, frame.RouterHopPing, nil, body, nil); err == nil {
+					if err := df.Seal(Z.State.GetSession(V.IP)); err != nil {
+						e.Infra("seal disconnect: %v", err)
+					}
+					df.SetTTL(31)
+					_ = lzx.SendPriority(df)
+					simnet.Wait()
+					for hop := 0; hop < 3; hop++ {
+						for _, p := range ms.Net.Pending() {
+							if !before[p] && p.To.Local != V {
+								ms.Net.Deliver(p)
+							}
+						}
+						simnet.Wait()
+					}
+					e.Probe("disconnect_notice_of_a_router_relayed_by_a_peer")
+				}
+				break
+			}
 			// A disconnect notice that V itself has to handle: addressed to V, or sent as a hop
 			// ping - built like the shipped sender builds it, signed by X for V.
 			dmsg, _ := cbor.Marshal(&router.DisconnectPingMsg{GoingDown: tp.Chance(1, 3), Disconnected: []netip.Addr{Z.IP}})
@@ -610,7 +636,16 @@ func run(e *core.Env) {
 			ms.CheckPanics("worker-panic")
 			switch {
 			case kind == "disconnect":
-				// removed routes must all contain X
+				// removed routes must all contain the router the notice is from
+				X := X
+				if src := libSrc[len(libSrc)-1]; src != X.IP {
+					for _, nd := range ms.Nodes {
+						if nd.IP == src {
+							X = nd
+						}
+					}
+					e.Probe("valid_disconnect_of_a_router_that_is_not_the_delivering_peer")
+				}
 				postSet := map[string]bool{}
 				for _, r := range post.routesNX {
 					postSet[r] = true
@@ -627,7 +662,7 @@ func run(e *core.Env) {
 						}
 					}
 					if !has {
-						e.Fail("disconnect-removed-unrelated-route", "disconnect from X removed the route to %s via %s, which does not contain X", names[en.DstIP], names[en.NextHop])
+						e.Fail("disconnect-removed-unrelated-route", "disconnect from %s removed the route to %s via %s, which does not contain %s", names[X.IP], names[en.DstIP], names[en.NextHop], names[X.IP])
 					}
 				}
 				e.Probe("valid_disconnect_handled")
